@@ -4,7 +4,7 @@ import Drv.Util
 /-
   drv_module model [pinned] | spec | judge   < ops
 
-  op      graph <m:dep,dep;m2:…|-> bad=<m,…> list=<m,…> [list=<m,…> …]
+  op      graph <m:dep,dep;m2:…|-> bad=<m,…> [nohook=<m,…>] list=<m,…> [list=<m,…> …]
   model   → status <n|sigN> why=<-|loop:a>b|unloadable:m|fuel> events <kind:m> …
             (same record syntax as harness/h_module.c; `pinned` = module_dfs as pinned)
   spec    → demand abort | demand run <modules that must be loaded, sorted>
@@ -18,6 +18,7 @@ namespace Drv.ModuleDrv
 structure Op where
   graph : List (String × List String) := []
   bad : List String := []
+  nohook : List String := []
   lists : List (List String) := []
   deriving Inhabited
 
@@ -37,6 +38,7 @@ def parseOp (f : List String) : Option Op :=
       | [] => some op
       | x :: xs =>
         if x.startsWith "bad=" then go { op with bad := splitNE (x.drop 4).toString ',' } xs
+        else if x.startsWith "nohook=" then go { op with nohook := splitNE (x.drop 7).toString ',' } xs
         else if x.startsWith "list=" then go { op with lists := op.lists ++ [splitNE (x.drop 5).toString ','] } xs
         else none
     go { graph } rest
@@ -48,9 +50,10 @@ def Op.G (op : Op) (m : String) : List String :=
   | none => []
 
 def Op.ok (op : Op) (m : String) : Bool := !op.bad.contains m
+def Op.hk (op : Op) (m : String) : Bool := !op.nohook.contains m
 
 def Op.universe (op : Op) : List String :=
-  (op.graph.flatMap (fun (m, ds) => m :: ds) ++ op.lists.flatten ++ op.bad).eraseDups
+  (op.graph.flatMap (fun (m, ds) => m :: ds) ++ op.lists.flatten ++ op.bad ++ op.nohook).eraseDups
 
 /-- order of `set_compare_charp` -/
 def ltName (a b : String) : Bool := Bytes.strcasecmp (Bytes.ofString a) (Bytes.ofString b) < 0
@@ -83,7 +86,9 @@ def showOutcome (o : Outcome String) : String :=
 
 def runModel (pinned : Bool) (op : Op) : Outcome String :=
   let fuel := op.universe.length + 1
-  runLists ltName op.G op.ok (if pinned then dfsPinned ltName else dfsFixed ltName) fuel op.lists {}
+  let o := runLists ltName op.G op.ok (if pinned then dfsPinned ltName else dfsFixed ltName) fuel op.lists {}
+  -- a module without the hook runs the same walk and writes no post-init event
+  { o with events := hideHookless op.hk o.events }
 
 def sortNames (xs : List String) : List String :=
   (xs.toArray.qsort (fun a b => ltName a b)).toList
@@ -95,9 +100,10 @@ def specLine (op : Op) : String :=
   else "demand run " ++ ",".intercalate (sortNames (reachable op.G U L).eraseDups)
 
 /-- first event (chronologically) that is not `okAt` its predecessors -/
-def firstDisorder (G : String → List String) : List (Event String) → List (Event String) → Option (Event String)
+def firstDisorder (G : String → List String) (hk : String → Bool) (U : List String) :
+    List (Event String) → List (Event String) → Option (Event String)
   | _, [] => none
-  | seen, e :: rest => if okAt G seen e then firstDisorder G (e :: seen) rest else some e
+  | seen, e :: rest => if okAtH G hk U seen e then firstDisorder G hk U (e :: seen) rest else some e
 
 def judgeLine (op : Op) (rec : List String) : String :=
   match rec with
@@ -108,15 +114,15 @@ def judgeLine (op : Op) (rec : List String) : String :=
     | some events =>
       let U := op.universe
       let L := op.lists.flatten
-      if judge op.G op.ok U L status events then "ok"
+      if judgeH op.G op.ok op.hk U L status events then "ok"
       else if mustAbort op.G op.ok U L then
         if status = 0 then "FAIL start-up succeeded although a reachable module is unloadable or on a dependency cycle"
         else "FAIL post-init of a module that lies on a dependency cycle"
       else if status ≠ 0 then s!"FAIL acyclic loadable graph but start-up aborted with status {st}"
-      else match firstDisorder op.G [] events with
+      else match firstDisorder op.G op.hk U [] events with
         | some e => s!"FAIL event out of order or repeated: {showEvent e}"
         | none =>
-          if !completeRun L events then "FAIL a listed module was not constructed, or a constructed module lacks ctor-end / post-init / dtor"
+          if !completeRunH op.hk L events then "FAIL a listed module was not constructed, or a constructed module lacks ctor-end / post-init / dtor"
           else "FAIL an unloadable module was constructed"
   | _ => "FAIL no status record: " ++ " ".intercalate rec
 
